@@ -224,6 +224,7 @@ def run_case(case):
     out = []
     coll = None
     last_text = [None]
+    last_plain = [None]
     # bystanders created BEFORE the ops: nothing done to `coll` may change them
     by = [("Collection#0", metabook.Collection()), ("Chapter#0", metabook.Chapter(title="by")),
           ("Collection#1", metabook.Collection(title="other"))]
@@ -267,6 +268,7 @@ def run_case(case):
                     raise TypeError("loads(text) is a %s" % type(m2).__name__)
                 coll = m2
                 last_text[0] = op[1]
+                last_plain[0] = plain(coll)       # what this text decodes to, taken before anybody touches the object
                 return plain(coll)
             out.append(guarded(f))
         elif k == "walk":
@@ -333,6 +335,7 @@ def run_case(case):
                        "second_before": pb, "dumps_first": ta, "dumps_again": tc, "id_before": id1, "id_after": id2,
                        "titles_first": [x.title for x in a.get_articles()], "titles_again": [x.title for x in c.get_articles()],
                        "mutated": plain(b) != pb,
+                       "loadtime": (last_plain[0] if (use_text and last_text[0] is not None and last_plain[0] != pa) else "=first"),
                        "bystander_changed": json.dumps(plain(coll), sort_keys=True) != coll_before}
                 # keep the output small when nothing is wrong
                 if pa == pa2 == pc:
